@@ -111,7 +111,12 @@ func funcSpec(pl *refgen.Planner, m *refgen.Method, gf *outparse.GenFunc, mode s
 					}
 				}
 				if !fits {
-					fs.Unfit = append(fs.Unfit, l.Path)
+					if ex.Rule == "skip" {
+						// the path ITSELF is skipped (not a member below it): reported under a key of its own
+						fs.Unfit = append(fs.Unfit, l.Path+"|skip")
+					} else {
+						fs.Unfit = append(fs.Unfit, l.Path)
+					}
 					continue
 				}
 				it := behave.ItemSpec{Dst: l.Path, Class: l.Class, Err: l.Err}
